@@ -79,7 +79,30 @@ pub fn make_vfs(
     v.glob_order = p.glob.clone();
     v.chunks = p.read_chunks.clone();
     v.today = today.naive();
+    v.reported_cwd = cwd_for(files, p.hash_seed);
     Rc::new(v)
+}
+
+/// Working directory of a simulated process, a function of the tape: the root's directory,
+/// `/`, one of the world's directories, or a directory whose name is a textual prefix of one
+/// of them (`/w/su` beside `/w/sub`, as `books` beside `books2024`). Every path the simulator
+/// hands to okane is absolute, so nothing may depend on it.
+pub fn cwd_for(files: &BTreeMap<String, Vec<u8>>, hash_seed: u64) -> String {
+    let mut cands: Vec<String> = vec!["/w".to_string(), "/".to_string()];
+    for path in files.keys() {
+        if let Some(i) = path.rfind('/') {
+            let dir = &path[..i];
+            if dir.len() > 2 && !cands.iter().any(|c| c == dir) {
+                cands.push(dir.to_string());
+                let cut: String = dir.chars().take(dir.chars().count() - 1).collect();
+                if !cut.ends_with('/') && !cands.contains(&cut) {
+                    cands.push(cut);
+                }
+            }
+        }
+    }
+    let k = (crate::prng::mix(&[hash_seed, 0x637764]) % cands.len() as u64) as usize;
+    cands[k].clone()
 }
 
 /// Draws the schedule of one simulated process.
